@@ -915,6 +915,40 @@ fn optic_checkpoint_probe(out: &mut Out, path: &str, rt: &Rt, engine: &Engine, i
                 continue;
             }
             let fp0 = mc::fp_debug(&(&rt.runtime, &pc));
+            // a checkpoint is retention configuration: WHAT a coordinate shows (payload, resolved
+            // coordinate) must be the same with and without it, for coordinates on BOTH sides of the
+            // checkpoint (a restore that picks the checkpoint of the wrong tick shows another state)
+            for t in 0..info.len {
+                for sh in [OpticApertureShape::Head, OpticApertureShape::SnapshotMetadata] {
+                    let req = optic_req(
+                        OpticFocus::Worldline { worldline_id: *w },
+                        EchoCoordinate::Worldline { worldline_id: *w, at: CoordinateAt::Tick(wt(t)) },
+                        sh,
+                        Some(4096),
+                        Some(64),
+                        AttachmentDescentPolicy::BoundaryOnly,
+                        Some(0),
+                    );
+                    let plain = std::panic::catch_unwind(std::panic::AssertUnwindSafe(|| ObservationService::observe_optic(&rt.runtime, &rt.provenance, engine, req.clone())));
+                    let with_cp = std::panic::catch_unwind(std::panic::AssertUnwindSafe(|| ObservationService::observe_optic(&rt.runtime, &pc, engine, req.clone())));
+                    out.reads += 2;
+                    match (plain, with_cp) {
+                        (Ok(ObserveOpticResult::Reading(a)), Ok(ObserveOpticResult::Reading(b))) => {
+                            out.c("checkpoint_independence_readings_compared", 1);
+                            if a.payload != b.payload {
+                                out.v("c16:coordinate-binding:reading at an explicit coordinate depends on a replay checkpoint".into(), path, json!({"request": format!("{req:?}"), "checkpoint": c, "tick": t}));
+                            }
+                        }
+                        (Ok(ObserveOpticResult::Obstructed(_)), Ok(ObserveOpticResult::Obstructed(_))) => {}
+                        (Ok(_), Ok(_)) => {
+                            out.v("c16:coordinate-binding:a replay checkpoint turns a reading into an obstruction or back".into(), path, json!({"request": format!("{req:?}"), "checkpoint": c, "tick": t}));
+                        }
+                        (_, Err(_)) | (Err(_), _) => {
+                            out.v("c16:totality:observe_optic panicked (checkpoint probe)".into(), path, json!({"request": format!("{req:?}"), "checkpoint": c, "tick": t}));
+                        }
+                    }
+                }
+            }
             // explicit coordinates name an ENTRY index t (as in the main menu: Tick(t) binds to prefix_fp[t]);
             // the checkpoint at cursor coordinate c holds the state after entries 0..c-1, so it lies at or
             // below every t >= c
